@@ -1271,8 +1271,12 @@ class ElectrumX(SessionBase):
                            f'require header height {height:,d} <= '
                            f'cp_height {cp_height:,d} <= '
                            f'chain height {max_height:,d}')
-        branch, root = await self.db.header_branch_and_root(cp_height + 1,
-                                                            height)
+        try:
+            branch, root = await self.db.header_branch_and_root(cp_height + 1,
+                                                                height)
+        except self.db.DBError as e:
+            # The chain can get shorter (a reorg) between the check above and the reads
+            raise RPCError(BAD_REQUEST, f'db error: {e!r}') from None
         return {
             'branch': [hash_to_hex_str(elt) for elt in branch],
             'root': hash_to_hex_str(root),
